@@ -176,16 +176,13 @@ def alphabet(bins, backed, allow_remesh=True):
 def op_json(op, bins):
     o = dict(op)
     if o["op"] == "update":
-        o = {"op": "update", "v": [rat(v) for v in pattern(bins, op["p"])]}
+        o = {"op": "updatep", "p": op["p"]}
     elif o["op"] == "change":
         o["a"], o["b"] = rat(o["a"]), rat(o["b"])
     elif o["op"] == "load":
         o["data"] = [rat(v) for v in o["data"]]
     elif o["op"] == "loadfn":
         o["c"] = rat(o["c"])
-    elif o["op"] == "moments":
-        o["N"] = [rat(Fr(3 * i + 1)) for i in range(bins)]
-        o["w"] = [rat(Fr(i % 3 + 1, 2)) for i in range(bins)]
     return o
 
 
